@@ -20,6 +20,9 @@ func runC04(c *Ctx) {
 	c04MethodGate(c)
 	c07StampGuard(c)
 	c07StampContent(c)
+	// the answering backend is recognised by the text of the packet's source address: that text is the canonical one
+	// (IP.String() of the address the read returned), the form the backend index is keyed with (shared with C07)
+	c07TrueSource(c)
 	c19Addresses(c, "key-agreement")
 	ruleNoLoopCapture(c, "bind-sites", "a response is attributed to the source of a later datagram, or every replayed backend notification names the backend visited last - the address index misses backends, and dialogs they answer are bound to the pool")
 	// the pin is only as good as its key and its lifetime: the identity rules of C16 and the
